@@ -78,6 +78,12 @@ func genDefinition(t *rapid.T) defGen {
 				ln = rapid.SampledFrom([]int{0, 31, 33}).Draw(t, l+"blen2")
 			}
 			vp.ByteArgs = [][]byte{rapid.SliceOfN(rapid.Byte(), ln, ln).Draw(t, l+"barg")}
+			if ln == 32 && rapid.IntRange(0, 3).Draw(t, l+"bytesN") == 0 {
+				// a fixed-size bytesN value: right-padded with zeros (docs/event.md)
+				for i := rapid.SampledFrom([]int{1, 4, 8, 20, 31}).Draw(t, l+"bytesNlen"); i < 32; i++ {
+					vp.ByteArgs[0][i] = 0
+				}
+			}
 			if ref.Offset < 4 {
 				usedTopicEq[ref.Offset] = true
 				if ln != 32 && g.Invalid == "" {
@@ -427,8 +433,45 @@ func genLog(t *rapid.T, d *svc.EventTriggerDefinition) logGen {
 	nh := rapid.SampledFrom([]int{0, 0, 0, 1, 1, 2}).Draw(t, "nHostile")
 	for k := 0; k < nh; k++ {
 		l := fmt.Sprintf("h%d", k)
-		kind := rapid.SampledFrom([]string{"truncate", "truncate-word", "offset-word", "length-word", "empty", "drop-topic"}).Draw(t, l+"kind")
+		kind := rapid.SampledFrom([]string{"truncate", "truncate-word", "truncate-in-static-word", "offset-word", "length-word", "empty", "drop-topic"}).Draw(t, l+"kind")
 		switch kind {
+		case "truncate-in-static-word":
+			// the data ends inside the highest statically referenced word: GetValue documents right
+			// zero-padding, so the log stays well formed for that reference and for all lower ones
+			top := -1
+			var topPred svc.ValuePredicate
+			for _, p := range d.LogPredicates {
+				if o := p.LogValueRef.Offset; !p.LogValueRef.Dynamic && o >= 4 && o < 64 && int(o-4) > top {
+					top, topPred = int(o-4), p.ValuePredicate
+				}
+			}
+			if top < 0 || (top+1)*32 > len(data) {
+				continue
+			}
+			keep := rapid.IntRange(1, 31).Draw(t, l+"keep")
+			word := data[top*32 : (top+1)*32]
+			switch aim := rapid.IntRange(0, 3).Draw(t, l+"aim"); {
+			case aim == 0:
+				// whatever the word holds
+			case topPred.Op == svc.BytesEq && len(topPred.ByteArgs) == 1 && len(topPred.ByteArgs[0]) == 32:
+				// cut only zero bytes off a word equal to the argument: the padded value still equals it
+				arg := topPred.ByteArgs[0]
+				z := 0
+				for z < 31 && arg[31-z] == 0 {
+					z++
+				}
+				if z > 0 {
+					keep = 32 - rapid.IntRange(1, z).Draw(t, l+"cutZeros")
+					copy(word, arg)
+				}
+			case topPred.Op < svc.BytesEq:
+				// a number with non-zero high bytes and zero low bytes: the padded value is that number, not zero
+				for i := range word {
+					word[i] = 0
+				}
+				copy(word, rapid.SliceOfN(rapid.ByteRange(1, 255), keep, keep).Draw(t, l+"high"))
+			}
+			data = data[:top*32+keep]
 		case "truncate":
 			if len(data) > 0 {
 				data = data[:rapid.IntRange(0, len(data)-1).Draw(t, l+"to")]
